@@ -1,4 +1,5 @@
 import PoryProofs.ProgramParsePS
+import PoryProofs.ProgramInsertMS
 /-
 P2d — the whole-file grammar theorem ("parse ∘ print = elaborate" for whole files, P2 / P2b) COMPLETED by the three
 forms P2 and P2b list as NOT COVERED: poryswitch inside movement lists, inside mart lists and inside text
@@ -318,8 +319,8 @@ def exFile : List STopP := [exRaw, exMove, exMart, exTextSw, exTextFmt]
 #guard (Lexer.lexAll ("raw `nop` movement M { walk_up poryswitch(GAME) { RUBY: walk_left EMERALD { walk_down * 2 " ++
     "poryswitch(LANG) { EN: face_up _ { face_down , face_left } } } _: walk_right } step_x } " ++
     "mart Shop { ITEM_A poryswitch(GAME) { RUBY { ITEM_R ITEM_S } _: ITEM_X } ITEM_B } " ++
-    "text T { poryswitch(GAME) { RUBY: \"Ruby\" EMERALD { braille \"A\" } _: format(\"aa bb\", \"TEST\", 100) " ++
-    "EMERALD: ascii \"E\" } } text (local) F { format(\"aa bb cc\", \"TEST\", 50) }").toList).map
+    "text T { poryswitch(GAME) { RUBY: \"Ruby\" EMERALD { braille\"A\" } _: format(\"aa bb\", \"TEST\", 100) " ++
+    "EMERALD: ascii\"E\" } } text (local) F { format(\"aa bb cc\", \"TEST\", 50) }").toList).map
       (fun t => (t.type, t.lit)) ==
   (printTopsP exFile ++ [eofT]).map (fun t => (t.type, t.lit))
 
